@@ -246,6 +246,14 @@
     Vec w; int rc = M::included(n, UB, UA, &w), rcb = M::included(n, UA, UB, &w);
     if (rc < 0 || rcb < 0) { hx::inconclusive("union_cap"); return; }
     std::string d = "A " + showU(UA) + " B " + showU(UB); std::string cls = ai == bi ? "alias-" : "";
+    if constexpr (kind == K_GRID) {
+      // triage (same deterministic predicate as for difference_assign, which shares approximate_partition with the covering test):
+      // some congruence expression of one operand takes non-integral values on a disjunct of the other one
+      auto nonint_on = [&](const Un& X, const Un& Y) { for (size_t i = 0; i < X.size(); ++i) { const ref::Lattice& L = lat(X[i]); if (L.empty) continue;
+        for (size_t j = 0; j < Y.size(); ++j) for (size_t c = 0; c < Y[j].cgs.size(); ++c) { const ref::Cg& cg = Y[j].cgs[c]; if (cg.m == 0) continue;
+          if (!ref::is_int(ref::dot(cg.a, L.p))) return true; for (size_t q = 0; q < L.params.size(); ++q) if (!ref::is_int(ref::dot(cg.a, L.params[q]))) return true; } } return false; };
+      if (nonint_on(UB, UA) || nonint_on(UA, UB)) cls += "nonintegral-values-on-a-congruence-of-the-other-operand-";
+    }
     bool cov = A.geometrically_covers(B); checked(); hx::count("geom_checks");
     if (cov != (rc == 1)) { violation(key("geometrically_covers", "wrong_boolean", cls + (cov ? "ppl-true" : "ppl-false")), d); return; }
     bool ge = A.geometrically_equals(B); checked();
